@@ -23,7 +23,7 @@ M = [
  ("C12-1","C12","src/epoch/ops.rs","            self.duration.to_parts() == other.duration.to_parts()\n        } else {","            self.duration == other.duration\n        } else {","regression: same-scale Epoch equality delegates to Duration equality (x == -x)"),
  ("C12-2","C12","src/epoch/ops.rs","        if *self < other {\n            *self","        if self.duration < other.duration {\n            *self","Epoch::min compares raw durations, ignoring the time scales"),
  ("C13-1","C13","src/duration/parse.rs","    if !s.is_ascii() {","    if false && !s.is_ascii() {","regression: parse_offset slices non-ASCII input"),
- ("C14-1","C14","src/duration/mod.rs","if *self - floored < (ceiled - *self).abs() {","if *self - floored <= (ceiled - *self).abs() {","round: ties go down"),
+ ("C14-1","C14","src/duration/mod.rs","Self::from_total_nanoseconds(if total_ns - floored_ns < ceiled_ns - total_ns {","Self::from_total_nanoseconds(if total_ns - floored_ns <= ceiled_ns - total_ns {","round: ties go down"),
  ("C16-1","C16","src/epoch/ops.rs","(days.rem_euclid(Weekday::DAYS_PER_WEEK_I128) as u8).into()","((days % Weekday::DAYS_PER_WEEK_I128) as u8).into()","weekday uses % instead of rem_euclid: wrong before 1900"),
  ("C18-2","C18","src/timeunits.rs","            if total_ns.abs() < (i64::MAX as f64) {\n                Duration::from_truncated_nanoseconds(total_ns as i64)\n            } else {\n                Duration::from_total_nanoseconds(total_ns as i128)\n            }\n        }\n    }\n}\n\n#[test]","            if total_ns.abs() <= (i64::MAX as f64) {\n                Duration::from_truncated_nanoseconds(total_ns as i64)\n            } else {\n                Duration::from_total_nanoseconds(total_ns as i128)\n            }\n        }\n    }\n}\n\n#[test]","Unit * f64: i64 cast used at exactly 2^63 (saturating cast loses one nanosecond)"),
  ("C19-1","C19","src/efmt/formatter.rs","                        if !item.optional || nanos > 0 {","                        if !item.optional || nanos >= 1000 {","optional %f? omitted below one microsecond"),
@@ -44,6 +44,9 @@ for mid, prop, f, old, new, desc in M:
         i = s.index("pub fn to_mjd_tt_duration")
         j = s.index("MJD_J1900", i)
         s2 = s[:j] + "MJD_J2000" + s[j+len("MJD_J1900"):]
+    elif mid == "C16-1":
+        # the first occurrence: Epoch::weekday_in_time_scale (the second one is the calendar-date helper of next/previous)
+        s2 = s.replace(old, new, 1)
     else:
         if s.count(old) != 1:
             print(f"SKIP {mid}: pattern found {s.count(old)} times"); continue
